@@ -1,3 +1,28 @@
 package main
 
-func cmdSelftest(args []string) int { return 0 }
+import (
+	"fmt"
+	"os/exec"
+)
+
+// cmdSelftest checks that the tools the checks need are present (solvers) and that the
+// harness overlay loads and type-checks against the current /repo.
+func cmdSelftest(args []string) int {
+	for _, b := range []string{"z3-new", "z3", "cvc5", "go"} {
+		if _, err := exec.LookPath(b); err != nil {
+			fmt.Println("selftest: missing tool", b)
+			return 2
+		}
+	}
+	ov, err := loadOverlay()
+	if err != nil {
+		fmt.Println("selftest:", err)
+		return 2
+	}
+	if _, err := loadProgram(ov); err != nil {
+		fmt.Println("selftest: cannot load /repo with the harness overlay:", err)
+		return 2
+	}
+	fmt.Println("selftest: ok")
+	return 0
+}
